@@ -3,8 +3,11 @@
 package bill
 
 import (
+	"github.com/invopop/gobl/cal"
 	"github.com/invopop/gobl/internal/vrt"
 	"github.com/invopop/gobl/num"
+	"github.com/invopop/gobl/org"
+	"github.com/invopop/gobl/tax"
 )
 
 // C17 — totals are symmetric under negation and independent of row order; removing included taxes keeps the payable amount.
@@ -194,4 +197,50 @@ func H_C17_RemoveIncluded() {
 	vrt.Known("C17-remove-included-fixed-document-row", fixedDocRow)
 	vrt.Assert(vrt.And(t.Payable.Value() == twt.Value(), t.Payable.Exp() == twt.Exp()), "payable-equals-original-total-with-tax")
 	vrt.Assert(t.Payable.Value() == t.TotalWithTax.Value()+amtOrZero(t.Rounding), "residue-is-in-rounding")
+}
+
+// H_C17_OrderSurcharge: two lines in the same tax category whose combos differ in percentage and / or in carrying a
+// surcharge (every combination): swapping the lines changes no total and no tax figure.
+func H_C17_OrderSurcharge() {
+	rule := skRule("rule")
+	mk := func(name string) *Line {
+		pr := skAmt(name+".price", 2)
+		pct := skP21
+		if vrt.Choice(name+".pct", 2) == 1 {
+			pct = skP10
+		}
+		c := &tax.Combo{Category: "VAT", Percent: &pct}
+		if vrt.Choice(name+".sur", 2) == 1 {
+			s := num.MakePercentage(52, 3)
+			c.Surcharge = &s
+		}
+		return &Line{Quantity: num.MakeAmount(3, 0), Item: &org.Item{Name: "item", Price: &pr}, Taxes: tax.Set{c}}
+	}
+	build := func(swap bool) *Invoice {
+		a, b := mk("l0"), mk("l1")
+		inv := &Invoice{Currency: "EUR", IssueDate: cal.MakeDate(2024, 3, 1), Tax: &Tax{Rounding: rule}}
+		if swap {
+			inv.Lines = []*Line{b, a}
+		} else {
+			inv.Lines = []*Line{a, b}
+		}
+		return inv
+	}
+	x, y := build(false), build(true)
+	ex, ey := calculate(x), calculate(y)
+	vrt.Assert((ex == nil) == (ey == nil), "same-outcome")
+	if ex != nil || ey != nil {
+		return
+	}
+	tx, ty := x.Totals, y.Totals
+	same := vrt.And(tx.Sum.Value() == ty.Sum.Value(), vrt.And(tx.Tax.Value() == ty.Tax.Value(), vrt.And(tx.TotalWithTax.Value() == ty.TotalWithTax.Value(), tx.Payable.Value() == ty.Payable.Value())))
+	vrt.Assert(same, "document-totals-independent-of-order")
+	vrt.Assert(tx.Taxes != nil && ty.Taxes != nil && len(tx.Taxes.Categories) == 1 && len(ty.Taxes.Categories) == 1, "one-category")
+	cx, cy := tx.Taxes.Categories[0], ty.Taxes.Categories[0]
+	vrt.Assert(len(cx.Rates) == len(cy.Rates), "same-number-of-rate-groups")
+	vrt.Assert(cx.Amount.Value() == cy.Amount.Value(), "category-amount-independent-of-order")
+	vrt.Assert((cx.Surcharge == nil) == (cy.Surcharge == nil), "category-surcharge-present-in-both-orders")
+	if cx.Surcharge != nil && cy.Surcharge != nil {
+		vrt.Assert(cx.Surcharge.Value() == cy.Surcharge.Value(), "category-surcharge-independent-of-order")
+	}
 }
